@@ -198,9 +198,14 @@ func checkSyntaxInfixParts(node *InfixExpression) Object {
 	if !operatorIsKeyword {
 		// comparators take operands, not conditions: "a < b = c" is not a sentence
 		for _, side := range []Expression{node.Left, node.Right} {
-			switch side.(type) {
+			switch operand := side.(type) {
 			case *InfixExpression, *PrefixExpression, *BetweenExpression, *InExpression:
 				return newError(syntaxErrorTemplate, side.String())
+			case *CallExpression:
+				// size() is the only function whose result is an operand
+				if name, ok := operand.Function.(*Identifier); !ok || name.Value != "size" {
+					return newError(syntaxErrorTemplate, side.String())
+				}
 			}
 		}
 	}
@@ -763,6 +768,19 @@ func evalFunctionCall(node *CallExpression, env *Environment) Object {
 
 	if funcObj.ForUpdate {
 		return newError("the function is not allowed in an condition expression; function: " + funcObj.Name)
+	}
+
+	// the arguments of a function are operands (paths, values, size()), not conditions
+	for _, arg := range node.Arguments {
+		switch operand := arg.(type) {
+		case *Identifier, *IndexExpression:
+		case *CallExpression:
+			if name, ok := operand.Function.(*Identifier); !ok || name.Value != "size" {
+				return newError(syntaxErrorTemplate, node.String())
+			}
+		default:
+			return newError(syntaxErrorTemplate, node.String())
+		}
 	}
 
 	args := evalExpressions(node.Arguments, env)
